@@ -586,12 +586,12 @@ def main(rep, tier, only):
             dec = {sx.show(a): b for a, b in p.decisions}
             out = sx.show(p.outcome[1])
             if kind.startswith("opt"):
-                ha, hb = dec.get("has_value(_a)"), dec.get("has_value(_b)")
+                ha, hb = dec.get("has_value(r_a0)"), dec.get("has_value(r_a1)")
                 rows += 1
                 o = "==" if kind == "opt==" else "<"
                 if ha and hb:
-                    want = "(some_payload(_a) %s some_payload(_b))" % o
-                    if out.replace("operator", "") not in (want,) and not ("some_payload(_a)" in out and "some_payload(_b)" in out and o in out and out.find("_a") < out.find("_b")):
+                    want = "(some_payload(r_a0) %s some_payload(r_a1))" % o
+                    if out.replace("operator", "") not in (want,) and not ("some_payload(r_a0)" in out and "some_payload(r_a1)" in out and o in out and out.find("r_a0") < out.find("r_a1")):
                         bad = "both engaged: result %s, expected payload(a) %s payload(b)" % (out, o)
                 else:
                     # result is has_value(a) o has_value(b) under the decided tags
@@ -599,11 +599,11 @@ def main(rep, tier, only):
                     vb = bool(hb) if hb is not None else None
                     if vb is None:
                         # b undecided: the result must still be the comparison of the tags
-                        if "has_value(_b)" not in out and out not in ("true", "false"):
+                        if "has_value(r_a1)" not in out and out not in ("true", "false"):
                             bad = "tags not compared: %s" % out
                         continue
                     want = (va == vb) if o == "==" else (va < vb)
-                    ev = out.replace("has_value(_a)", str(va)).replace("has_value(_b)", str(vb)).replace("true", "True").replace("false", "False")
+                    ev = out.replace("has_value(r_a0)", str(va)).replace("has_value(r_a1)", str(vb)).replace("true", "True").replace("false", "False")
                     try:
                         got = bool(eval(ev, {"__builtins__": {}}, {})) if re.fullmatch(r"[\(\)TrueFals =<!]+", ev) else None
                     except Exception:
@@ -611,21 +611,21 @@ def main(rep, tier, only):
                     if got is None or got != want:
                         bad = "tags (%s,%s): result %s, expected %s" % (va, vb, out, want)
             else:
-                sa, sb = dec.get("has_success(_a)"), dec.get("has_success(_b)")
+                sa, sb = dec.get("has_success(r_a0)"), dec.get("has_success(r_a1)")
                 rows += 1
                 if sa and sb:
                     txt = out
                     if out.startswith("#"):
                         e = p.events[int(out[1:].split(":")[0]) - 1]
                         txt = sx.show_event(e)
-                    if not ("success_payload(_a)" in txt and "success_payload(_b)" in txt and "==" in txt):
+                    if not ("success_payload(r_a0)" in txt and "success_payload(r_a1)" in txt and "==" in txt):
                         bad = "both successes: result %s" % txt
                 elif sa is False and sb is False:
-                    eqd = [(k_, v_) for k_, v_ in dec.items() if "failure_payload(_a)" in k_ and "failure_payload(_b)" in k_ and "==" in k_]
+                    eqd = [(k_, v_) for k_, v_ in dec.items() if "failure_payload(r_a0)" in k_ and "failure_payload(r_a1)" in k_ and "==" in k_]
                     if eqd:
                         if out != ("true" if eqd[0][1] else "false"):
                             bad = "both failures: result %s although failure payloads compare %s" % (out, eqd[0][1])
-                    elif not ("failure_payload(_a)" in out and "failure_payload(_b)" in out and "==" in out):
+                    elif not ("failure_payload(r_a0)" in out and "failure_payload(r_a1)" in out and "==" in out):
                         bad = "both failures: result %s does not compare the failure payloads" % out
                 elif sa is not None and sb is not None:
                     if out != "false":
